@@ -2,7 +2,7 @@
 CHECK = {
     "level": "fault_enumeration",
     "exhaustive": True,
-    "rule": "for each request type (document create/update/delete, with attachment, granting/revoking access, user/role create/update/delete, session create/delete) a fault-free run records the request's storage-operation trace; then one run per (operation index, fault kind in {error before apply, CAS mismatch where the operation takes a CAS, applied-then-timeout}); plus the zero-fault rows of every rejection kind; distinct_nontrivial = distinct (request type, fault site, index) actually injected",
+    "rule": "for each request type (document create/update/delete, with attachment, granting/revoking access, user/role create/update/delete, session create/delete) a fault-free run records the request's storage-operation trace; then one run per (operation index, fault kind in {error before apply, CAS mismatch where the operation takes a CAS, persistent CAS mismatch = this and every later compare-and-swap of the request on that key loses (bounded retry loops run out), applied-then-timeout}); plus the zero-fault rows of every rejection kind; distinct_nontrivial = distinct (request type, fault site, index) actually injected",
     "parts": [
         {"name": "rest-faults", "pkg": "rest", "run": "^TestVerif_C11_Faults$", "timeout_q": 900, "timeout_t": 3000},
         {"name": "retry-chain", "pkg": "db", "run": "^TestVerif_C11_RetryChain$", "timeout_q": 400, "timeout_t": 1200},
